@@ -43,11 +43,15 @@ Ltac norm_atoms :=
       let n := fresh "n" in let H := fresh "Hn" in
       pose proof (norm_sq v) as H; set (n := norm v) in *; clearbody n
   end.
-Ltac v3_finish :=
-  repeat match goal with v : V3 |- _ => destruct v end;
-  v3_unfold;
-  first [ ring | nsatz | apply v3_eq; cbn [vx vy vz]; first [ ring | nsatz ] ].
-Ltac tv_norms := abs_consts; norm_atoms; abs_atoms; v3_finish.
+Ltac v3_cbv := cbv [mixed vsub vneg dot cross vadd vscale vzero Vec3.vx Vec3.vy Vec3.vz] in *.
+Ltac v3_destruct := repeat match goal with v : V3 |- _ => destruct v end; v3_cbv.
+Ltac v3_finish := v3_destruct; first [ ring | apply v3_eq; v3_cbv; ring ].
+Ltac v3_nsatz :=
+  v3_destruct;
+  first [ ring | timeout 20 nsatz | apply v3_eq; v3_cbv; first [ ring | timeout 20 nsatz ] ].
+Ltac tv_norms :=
+  abs_consts; rewrite ?norm_sq;
+  first [ v3_finish | norm_atoms; abs_atoms; v3_nsatz ].
 """
 
 
@@ -114,6 +118,13 @@ def norm_script(recipe_in, out_ctx: vx.OutCtx):
             else:
                 try:
                     kt = vx.scalar_poly_to_coq(k)
+                    # write |k| through an Abs argument of the output when it is a constant multiple of one
+                    for atext, aexpr in out_ctx.abs_args:
+                        ap = vx.comps_of_sympy(aexpr, out_ctx, "s")
+                        ratio = sympy.cancel(k / ap) if ap != 0 else None
+                        if ratio is not None and ratio.is_Rational:
+                            kt = atext if ratio == 1 else f"({vx.scalar_poly_to_coq(ratio)} * {atext})"
+                            break
                 except vx.Unsupported:
                     continue
                 steps.append(f"replace (norm {text}) with (Rabs {kt} * norm {qtext}) by (rewrite <- norm_scale; f_equal; v3_ring).")
@@ -189,9 +200,9 @@ def process(job):
         except Exception as e:  # pylint: disable=broad-except
             steps = [f"(* guidance failed: {type(e).__name__} *)"]
         res["proof"] = "intros.\n" + "\n".join(steps) + ("\n" if steps else "") + \
-            ("try field_simplify_eq; try assumption.\n" if hyps else "") + "tv_norms."
+            ("try field_simplify_eq; try assumption.\n" if hyps else "") + "timeout 90 tv_norms."
     else:
-        res["proof"] = "intros. v3_finish."
+        res["proof"] = "intros. timeout 60 v3_finish."
     res["has_norm"] = has_norm
     # numeric comparison (exact unless a norm occurs)
     mism = None
